@@ -146,6 +146,24 @@ def eval (line : String) : Option String := do
       let xs := match x with | .created _ _ => "201" | .existing _ => "200" | .err e => errS e
       return base ++ " new-account=" ++ xs
     | _ => return base
+  if kind = "coll" then
+    -- coll v=2 ops=<S|U>.<id>.<name>.<tok>.<eab>;D.<id>;… probe=<name>,<name>,…   (first probe: a new-account request without binding)
+    let get := fun (k : String) => (fs.find? (·.startsWith (k ++ "="))).map fun f => (f.drop (k.length + 1)).toString
+    let opOf := fun (t : String) => match t.splitOn "." with
+      | ["S", a, b, c, d] => do pure (CollOp.store ⟨(← a.toNat?), (← b.toNat?), (← c.toNat?), (← bool? d)⟩)
+      | ["U", a, b, c, d] => do pure (CollOp.update ⟨(← a.toNat?), (← b.toNat?), (← c.toNat?), (← bool? d)⟩)
+      | ["D", a] => do pure (CollOp.remove (← a.toNat?))
+      | _ => none
+    let opsT ← get "ops"
+    let ops ← if opsT = "-" then some [] else (opsT.splitOn ";").mapM opOf
+    let probes ← ((← get "probe").splitOn ",").mapM String.toNat?
+    let c := Coll.empty.run ops
+    let one := fun (n : Nat) => match c.servedEAB n with | some true => s!"{n}:1" | some false => s!"{n}:0" | none => s!"{n}:-"
+    let na := match probes.head? with
+      | none => "-"
+      | some n => match c.servedEAB n with
+        | some true => "400:externalAccountRequired" | some false => "201" | none => "404:notFound"
+    return s!"served={",".intercalate (probes.map one)} new-account={na}"
   if kind = "order" then
     let get := fun (k : String) => ((fs.find? (·.startsWith (k ++ "="))).map fun f => ((f.drop (k.length + 1)).toString.splitOn ",")).getD []
     let ok := get "ext" == callsExtractJWK && get "val" == callsValidateEAB && get "new" == callsNewAccount
